@@ -274,6 +274,40 @@ def locality_direct(ctx, st, rng_tag, n):
                     return False
             else:
                 st.validated += 1
+        # closures of ONE signature-preserving decorator (functools.wraps): the wrappers share a code
+        # object and a qualified name, each must still be bound with the signature of what it wraps
+        def _deco(f, with_sig):
+            @functools.wraps(f)
+            def wrapper(*a, **k):
+                return f(*a, **k)
+            if with_sig:
+                import inspect
+                wrapper.__signature__ = inspect.signature(f)
+            return wrapper
+        for sig, args, kw in cases:
+            if not sig:
+                continue
+            w = _deco(G.make_function(sig, name="cb"), rng.random() < 0.5)
+            try:
+                impl = G.canon_frame(callable_method(w)(*args, **dict(kw)))
+            except TypeError:
+                impl = "TypeError"
+            sp, corner = spec_call(sig, args, kw)
+            st.evaluations += 1
+            st.inc("locality:closures-of-one-wraps-decorator")
+            if not satisfies(impl, sp, corner):
+                txt = "\n".join([
+                    "# kind: spec-fails-on-implementation (binding depends on another callable's signature)",
+                    "# functions wrapped by one functools.wraps decorator, passed to callable_method in this order:",
+                    *[f"#   def cb({G.sig_text(s_)})" for s_, _, _ in cases],
+                    f"# failing one: def cb({G.sig_text(sig)}) called with *{list(args)} **{dict(kw)}",
+                    f"# observed : {impl}", f"# expected : {sp}"]) + "\n"
+                rp = ctx.write_replay(f"locality-{scn_hash(txt)}.replay.txt", txt)
+                ctx.violation(rp, "a functools.wraps closure was bound with a foreign signature")
+                if len(ctx.violations) >= 3:
+                    return False
+            else:
+                st.validated += 1
         # two partials of one function
         base = rng.choice([s for s in variants if s and s[0][1] in ("po", "pk")] or [None])
         if base:
